@@ -252,6 +252,10 @@ def _is_branch(x):
     return False
 
 
+def c16_is_branch(x):
+    return x.get("k") in ("If", "Loop") or (x.get("k") == "Match" and not (x.get("msrc") or "").startswith("TryDesugar"))
+
+
 def _in_parser_module(fn, prefix="delta::parser::"):
     return fn.startswith(prefix + "parse") and "::" not in fn[len(prefix):]
 
@@ -323,6 +327,35 @@ def op_tables(F, prefix, tokenenum):
                 for t in toks:
                     if ops:
                         out[(short, t)] = ops
+        # `if let Some(Token::X) = peek(..) { .. op .. }` and `if tokens.consume_optional(BaseToken::X) { .. op .. }`
+        for n in walk(body["hir"]):
+            if n.get("k") != "If":
+                continue
+            cond = hirq.unwrap_trivial(n["cond"])
+            toks = set()
+            if cond.get("k") == "LetExpr":
+                for x in walk(cond["pat"]):
+                    r = x.get("ctor_of") or x.get("res")
+                    if r and norm_path(r).rsplit("::", 1)[0].endswith(tokenenum):
+                        toks.add(r.split("::")[-1])
+            elif cond.get("k") == "MethodCall" and cond.get("name") == "consume_optional":
+                for p_, _ in hirq.constructs(cond):
+                    if norm_path(p_).rsplit("::", 1)[0].endswith(tokenenum):
+                        toks.add(p_.split("::")[-1])
+            if not toks:
+                continue
+            direct = [x for x in n["then"].get("stmts", [])] + ([n["then"]["e"]] if "e" in n["then"] else [])
+            ops = set()
+            for st in direct:
+                if any(c16_is_branch(y) for y in walk(st) if y is not st):
+                    continue
+                for p_, _ in hirq.constructs(st):
+                    sp = hirq.short(p_)
+                    if sp.split("::")[0] in ("BinaryOp", "ComparisonOp", "UnaryOp"):
+                        ops.add(sp)
+            for t in toks:
+                if ops and (short, t) not in out:
+                    out[(short, t)] = sorted(ops)
     return out, layering
 
 
